@@ -150,6 +150,16 @@ type SolverResult struct {
 	TimeS  float64
 	Output string // raw output (first 64k)
 	Model  map[string]string
+	Replay *ReplayResult
+}
+
+// ReplayResult records a counterexample replayed against the real code.
+type ReplayResult struct {
+	Confirmed bool   `json:"confirmed"`
+	TestFile  string `json:"test_file,omitempty"`
+	Command   string `json:"command,omitempty"`
+	Output    string `json:"output,omitempty"`
+	Inputs    string `json:"inputs,omitempty"`
 }
 
 type solverSpec struct {
